@@ -170,7 +170,10 @@ impl std::fmt::Display for ByteRange {
                 } else {
                     offset.to_string()
                 },
-                length.map_or(String::new(), |length| (offset + length).to_string())
+                // The end of an invalid byte range may not fit in a `u64`
+                length.map_or(String::new(), |length| (u128::from(*offset)
+                    + u128::from(length))
+                .to_string())
             ),
             Self::Suffix(length) => write!(f, "-{length}.."),
         }
